@@ -46,6 +46,9 @@ pub enum DiskFault {
     G2FlagBits { off: usize, bits: u8 },
     G2NotInSubgroup { off: usize, bytes: Vec<u8> },
     G2CopyOf { off: usize, from: usize },
+    /// the two G2 elements of an opening key shifted by opposite components outside the subgroup:
+    /// h + T and x_h - T (each is outside the subgroup, their sum is not)
+    G2PairShift { off_a: usize, off_b: usize, t: Vec<u8> },
     /// the object written twice back to back
     Duplicate,
     /// every byte replaced by seeded garbage of the same length
@@ -80,6 +83,7 @@ impl DiskFault {
             DiskFault::G2FlagBits { .. } => "disk.g2_flag_bits",
             DiskFault::G2NotInSubgroup { .. } => "disk.g2_on_curve_outside_subgroup",
             DiskFault::G2CopyOf { .. } => "disk.g2_copy_of_other_element",
+            DiskFault::G2PairShift { .. } => "disk.g2_pair_shifted_by_opposite_torsion",
             DiskFault::Duplicate => "disk.duplicate",
             DiskFault::Garbage(_) => "disk.garbage",
             DiskFault::Empty => "disk.empty",
@@ -251,6 +255,22 @@ pub fn apply(stored: &[u8], fault: &DiskFault, old: Option<&[u8]>, other: Option
                 b[*off..off + 96].copy_from_slice(bytes);
             }
         }
+        DiskFault::G2PairShift { off_a, off_b, t } => {
+            use dusk_bls12_381::{G2Affine, G2Projective};
+            if off_a + 96 <= n && off_b + 96 <= n && t.len() == 96 {
+                let rd = |s: &[u8]| -> Option<G2Affine> {
+                    let mut x = [0u8; 96];
+                    x.copy_from_slice(s);
+                    Option::<G2Affine>::from(G2Affine::from_compressed_unchecked(&x))
+                };
+                if let (Some(a), Some(bb), Some(tp)) = (rd(&b[*off_a..off_a + 96]), rd(&b[*off_b..off_b + 96]), rd(t)) {
+                    let a2 = G2Affine::from(G2Projective::from(a) + G2Projective::from(tp));
+                    let b2 = G2Affine::from(G2Projective::from(bb) - G2Projective::from(tp));
+                    b[*off_a..off_a + 96].copy_from_slice(&a2.to_compressed());
+                    b[*off_b..off_b + 96].copy_from_slice(&b2.to_compressed());
+                }
+            }
+        }
         DiskFault::G2CopyOf { off, from } => {
             if off + 96 <= n && from + 96 <= n {
                 let src = b[*from..from + 96].to_vec();
@@ -346,7 +366,11 @@ pub fn random_fault(rng: &mut Rng, len: usize, lay: Option<&Layout>) -> DiskFaul
         if pick < 7 && !lay.g1_points.is_empty() {
             if !lay.g2_points.is_empty() && rng.chance(1, 3) {
                 let off = lay.g2_points[rng.usize(lay.g2_points.len())];
-                return match rng.below(4) {
+                return match rng.below(5) {
+                    4 if lay.g2_points.len() >= 2 => match g2_outside_subgroup(rng) {
+                        Some(t) => DiskFault::G2PairShift { off_a: lay.g2_points[0], off_b: lay.g2_points[1], t },
+                        None => DiskFault::G2Identity { off },
+                    },
                     0 => DiskFault::G2Identity { off },
                     1 => DiskFault::G2FlagBits { off, bits: 1 + rng.below(7) as u8 },
                     2 => DiskFault::G2CopyOf { off, from: lay.g2_points[rng.usize(lay.g2_points.len())] },
